@@ -608,14 +608,20 @@ func (exec *Executor) executeDecimalMethod(
 		}
 	}
 
-	// Round to the scale. A scale that scales num beyond the range of float64
-	// is too fine to change it, and one that scales it down to nothing rounds
-	// it to zero.
+	// Round to the scale. Powers of ten with a negative exponent are inexact
+	// as floats, so scale by the positive power in the appropriate direction.
+	// A scale that scales num beyond the range of float64 is too fine to
+	// change it, and one that scales it down to nothing rounds it to zero.
 	rounded := num
-	if ratio := math.Pow10(scale); ratio == 0 {
+	if scale >= 0 {
+		ratio := math.Pow10(scale)
+		if scaled := num * ratio; !math.IsInf(ratio, 0) && !math.IsInf(scaled, 0) {
+			rounded = math.Round(scaled) / ratio
+		}
+	} else if ratio := math.Pow10(-scale); math.IsInf(ratio, 0) {
 		rounded = 0
-	} else if scaled := num * ratio; !math.IsInf(ratio, 0) && !math.IsInf(scaled, 0) {
-		rounded = math.Round(scaled) / ratio
+	} else {
+		rounded = math.Round(num/ratio) * ratio
 	}
 
 	// Make sure it's got no more than precision-scale digits before the
